@@ -879,8 +879,21 @@ func GenM3U8Doc(t *rapid.T) M3U8Doc {
 			}
 		}
 	}
+	var variantURIs []string
+	for _, e := range entries {
+		if e.K == "variant" {
+			variantURIs = append(variantURIs, e.URI)
+		}
+	}
 	for _, g := range groups {
 		if !ref[g.id] {
+			if rapid.Bool().Draw(t, "m3u.samevariant") {
+				// the usual multi-codec layout: the same variant playlist listed once per rendition group
+				// (1080p.m3u8 with AUDIO="aac", again with AUDIO="ac3"); the group is reachable through the repeat only
+				uri := variantURIs[rapid.IntRange(0, len(variantURIs)-1).Draw(t, "m3u.whichvariant")]
+				entries = append(entries, M3Entry{K: "variant", URI: uri, Attrs: fmt.Sprintf(`BANDWIDTH=64000,%s="%s"`, g.attr, g.id)})
+				continue
+			}
 			u := genM3URI(t, docTok(len(d.Planted)), "variant", "m3u8")
 			d.Planted = append(d.Planted, u)
 			entries = append(entries, M3Entry{K: "variant", URI: u.Text, Attrs: fmt.Sprintf(`BANDWIDTH=64000,%s="%s"`, g.attr, g.id)})
